@@ -1662,6 +1662,8 @@ where
         let event = EventBuilder::new(Kind::MlsGroupMessage, encrypted_content)
             .tag(tag)
             .sign_with_keys(&ephemeral_nostr_keys)?;
+        #[cfg(feature = "verif-hooks")]
+        let event = crate::verif_hooks::retime_wrapper(event, &ephemeral_nostr_keys)?;
 
         Ok(event)
     }
